@@ -107,7 +107,18 @@ def gen_group(rng: random.Random, var: str) -> str:
     return "(" + " and ".join(f'{var} != "{v}"' for v in vals) + ")"
 
 
+_POOL: dict = {"atoms": None}
+
+
+def set_atom_pool(rng: random.Random, variables: list[str], k: int = 5):
+    """Sessions draw their atoms from a small pool so that operands SHARE atoms (common factors are
+    where union_simplify / intersect_simplify / cnf / dnf do their work)."""
+    _POOL["atoms"] = [gen_atom(rng, rng.choice(variables)) for _ in range(k)]
+
+
 def gen_marker(rng: random.Random, variables: list[str], depth: int) -> str:
+    if _POOL["atoms"] and depth == 0 and rng.random() < 0.8:
+        return rng.choice(_POOL["atoms"])
     if rng.random() < 0.18:
         cands = [v for v in variables if v in STRING_VARS or v == "extra"]
         if cands:
@@ -420,10 +431,11 @@ def pick_vars(rng: random.Random) -> list[str]:
     return rng.choice(pools)
 
 
-def random_session(sid: int, seed: int, length: int = 16) -> dict:
+def random_session(sid: int, seed: int, length: int = 20) -> dict:
     rng = random.Random(seed)
     s = MSession(sid, seed)
     variables = pick_vars(rng)
+    set_atom_pool(rng, variables, rng.choice([4, 5, 6]))
     live = []
 
     def followups(r):
@@ -433,14 +445,17 @@ def random_session(sid: int, seed: int, length: int = 16) -> dict:
         s.reparse(r)
         if s.dead:
             return
-        if rng.random() < 0.4:
-            x = rng.random()
-            if x < 0.45:
-                s.project("only", r, rng.sample(variables, rng.randint(1, len(variables))))
-            elif x < 0.85:
-                s.project("exclude", r, [rng.choice(variables)])
-            else:
+        obj = s.objs[r - 1]
+        mentioned = sorted(vars_of(obj)) if obj is not None else []
+        if mentioned and rng.random() < 0.7:
+            # remove a variable the result really mentions (and sometimes one it does not)
+            v = rng.choice(mentioned) if rng.random() < 0.85 else rng.choice(variables)
+            if v == "extra" and rng.random() < 0.5:
                 s.project("without_extras", r, ["extra"])
+            else:
+                s.project("exclude", r, [v])
+        if not s.dead and rng.random() < 0.35:
+            s.project("only", r, rng.sample(variables, rng.randint(1, len(variables))))
 
     for _ in range(rng.randint(2, 3)):
         r = s.parse(gen_marker(rng, variables, rng.choice([0, 1, 1, 2])))
@@ -475,6 +490,7 @@ def law_session(sid: int, seed: int) -> dict:
     rng = random.Random(seed)
     s = MSession(sid, seed)
     variables = pick_vars(rng)
+    set_atom_pool(rng, variables, 4)
     regs = []
     for _ in range(3):
         r = s.parse(gen_marker(rng, variables, rng.choice([0, 1, 1])))
